@@ -54,7 +54,7 @@ def mutation_summaries(ctx):
                             hit = True
                         else:
                             for g in ctx.targets(f, n):
-                                gp = [a.arg for a in g.node.args.posonlyargs + g.node.args.args] if not g.is_lambda else []
+                                gp = g.pos_params if not g.is_lambda else []
                                 off = 1 if (g.cls is not None and gp and gp[0] in ("self", "cls", "klass", "_class")) else 0
                                 for i, a in enumerate(n.args):
                                     if isinstance(a, ast.Name) and a.id == pn and i + off < len(gp) and (g, gp[i + off]) in mut:
@@ -86,12 +86,12 @@ def rule_copy(chk):
     send = ctx.func("_output", "Destinations.send")
     ser = ctx.func("_validation", "_MessageSerializer.serialize")
     chk.notes.append("mutation summaries: send mutates its message: %s; _MessageSerializer.serialize mutates in place: %s" % (
-        (send, [a.arg for a in send.node.args.args][1]) in mut, (ser, [a.arg for a in ser.node.args.args][1]) in mut))
+        (send, send.pos_params[1]) in mut, (ser, ser.pos_params[1]) in mut))
     chk.instances("C13.copy:parameter-mutation summaries", len(mut), 3)
     for q in ("Logger.write", "MemoryLogger.write"):
         f = ctx.func("_output", q)
         cfg = ctx.cfg(f)
-        dparam = [a.arg for a in f.node.args.args][1]
+        dparam = f.pos_params[1]
 
         def transfer(n, st, lab):
             if lab == "exc":
@@ -130,7 +130,7 @@ def rule_copy(chk):
                     problems.append((n, "%s() on the caller's dictionary" % c.func.attr))
                 tg = ctx.targets(f, c)
                 for g in tg:
-                    gp = [a.arg for a in g.node.args.posonlyargs + g.node.args.args] if not g.is_lambda else []
+                    gp = g.pos_params if not g.is_lambda else []
                     off = 1 if (g.cls is not None and gp and gp[0] in ("self", "cls")) else 0
                     for i, a in enumerate(c.args):
                         if isinstance(a, ast.Name) and a.id in st and i + off < len(gp) and (g, gp[i + off]) in mut:
@@ -151,7 +151,7 @@ def rule_once(chk):
     cfg = ctx.cfg(lw)
     send = ctx.func("_output", "Destinations.send")
     ser = ctx.func("_validation", "_MessageSerializer.serialize")
-    sparam = [a.arg for a in lw.node.args.args][2]
+    sparam = lw.pos_params[2]
     scalls = [(n, c, m) for n in cfg.live for c, m in calls_in_node(n)
               if isinstance(c.func, ast.Attribute) and c.func.attr == "serialize" and isinstance(c.func.value, ast.Name) and c.func.value.id == sparam]
     sends = ctx.calls_to(lw, send)
@@ -201,7 +201,7 @@ def rule_once(chk):
             good="exactly one serialize() on the path with a serializer, none without, same object sent", fail="; ".join(problems), sites=len(cfg.live))
     # per-field: one application per declared key
     scfg = ctx.cfg(ser)
-    mparam = [a.arg for a in ser.node.args.args][1]
+    mparam = ser.pos_params[1]
     loops = [n for n in scfg.live if n.kind == "for_next"]
     okf = len(loops) == 1 and unparse(loops[0].ast.iter) in ("self.fields.items()",)
     detail = ""
@@ -239,7 +239,7 @@ def rule_fail(chk):
     send = ctx.func("_output", "Destinations.send")
     wt = ctx.func("_traceback", "write_traceback")
     lm = ctx.func("_action", "log_message")
-    sparam = [a.arg for a in lw.node.args.args][2]
+    sparam = lw.pos_params[2]
     handlers = []
     for n in cfg.live:
         if n.kind == "dispatch":
@@ -416,7 +416,7 @@ def rule_serializer_flow(chk):
     ctx = chk.ctx
     init = ctx.func("_action", "Action.__init__")
     child = ctx.func("_action", "Action.child")
-    ip = [a.arg for a in init.node.args.args]
+    ip = init.pos_params
     oki = any(isinstance(n, ast.Assign) and common.is_self_attr(n.targets[0], "_serializers") and isinstance(n.value, ast.Name) and n.value.id == ip[5]
               for n in iter_own_nodes(init.node)) and not stores_to_name(init, ip[5])
     chk.req(oki, "C13.attach", "Action.__init__:keeps-the-given-serializers", chk.where(init), good="self._serializers = serializers", fail="Action.__init__ does not keep the serializers it is given")
@@ -430,7 +430,7 @@ def rule_serializer_flow(chk):
                 fail="%s constructs the action without the serializers it was given (%s): typed fields are neither serialized nor validated" % (f.qualname, what))
     ctor_passes(ctx.func("_action", "startTask"), "_serializers", "start_task / ActionType.as_task")
     ctor_passes(ctx.func("_action", "Action.continue_task"), "_serializers", "continue_task")
-    ctor_passes(child, [a.arg for a in child.node.args.args][3], "every nested action")
+    ctor_passes(child, child.pos_params[3], "every nested action")
     sa = ctx.func("_action", "start_action")
     ok = False
     for n in iter_own_nodes(sa.node):
